@@ -520,6 +520,59 @@ def r8_per_kind_aggregates(ctx):
         r.anchor_missing("hand-written methods over per-kind records (found %d, 9 on the pinned tree)" % n)
 
 
+FILTERING = {"filter", "filter_map", "take", "skip", "take_while", "skip_while", "step_by", "retain", "find", "find_map", "nth", "last", "rev_filter"}
+
+
+def r9_every_conflicting_folder(ctx):
+    """The conflict branch of sync leaves every folder listed in
+    `MaybeConflict::folders` to auto_merge (flagged true *or* false — a folder
+    that is merely behind is listed too): the per-folder step runs for every
+    entry, unfiltered and unconditionally."""
+    ws = ctx.ws
+    r = ctx.rule("C04-R9", "auto_merge runs the folder step for every entry of conflict.folders",
+                 floor=2, kind="K4 flow (no filtering adaptor) + K2 must-pass-through inside the loop")
+    f = ws.fn("sos_remote_sync::auto_merge::AutoMerge::auto_merge")
+    if not f:
+        r.anchor_missing("AutoMerge::auto_merge")
+        return
+    fg = FlowGraph(ws, f)
+    body, live, steps = None, None, []
+    for b_ in f.bodies:
+        lv = cfg.live_blocks(b_)
+        st_ = [i for i, t in idioms.real_calls(b_, lv) if cname(t) == "auto_merge_folder"]
+        if st_:
+            body, live, steps = b_, lv, st_
+    if not steps:
+        r.anchor_missing("auto_merge_folder call in auto_merge")
+        return
+    loops = []
+    for i, t in body.calls():
+        if i in live and cname(t) == "next" and (t.get("macro") or "").endswith("ForLoop"):
+            es = cfg.enum_switch(body, t.get("t")) if t.get("t") is not None else None
+            if es and "Some" in es.targets and any(s_ in cfg.reach(body, [es.targets["Some"]], cut_blocks=[i]) for s_ in steps):
+                loops.append((i, t, es))
+    if not loops:
+        r.violation(f.root + "|folder-loop", cfg.loc(body, steps[0]), "auto_merge_folder is no longer called from a loop over the conflicting folders", work=len(live))
+        return
+    for (i, t, es) in loops:
+        sl = fg.back_from_operand(body, t["args"][0])
+        filt = sorted({cname(ct) for _b, _i, ct in sl.calls if cname(ct) in FILTERING})
+        k = f.root + "|iterates-all"
+        if not sl.reads_field("folders"):
+            r.violation(k, cfg.loc(body, i), "the folder loop does not iterate conflict.folders", work=len(sl.nodes))
+        elif filt:
+            r.violation(k, cfg.loc(body, i), "the folder loop iterates conflict.folders through %s: entries flagged false (the device is merely behind on that folder) are listed for auto_merge by the caller and would now be merged by nobody" % filt, work=len(sl.nodes))
+        else:
+            r.ok(k, cfg.loc(body, i), "iterates conflict.folders unfiltered", work=len(sl.nodes))
+        k2 = f.root + "|step-unconditional"
+        back = cfg.reach(body, [es.targets["Some"]], cut_blocks=steps)
+        if i in back:
+            p_ = cfg.find_path(body, [es.targets["Some"]], [i], cut_blocks=steps)
+            r.violation(k2, cfg.loc(body, steps[0]), "an iteration of the folder loop can complete without calling auto_merge_folder", work=len(live), witness=cfg.path_lines(body, p_))
+        else:
+            r.ok(k2, cfg.loc(body, steps[0]), "every iteration calls auto_merge_folder (or fails)", work=len(live))
+
+
 def run(ctx):
     ctx.explanation = (
         "Structural necessary conditions of convergence, decided over the MIR of the sync path: (R1) every function "
@@ -539,3 +592,4 @@ def run(ctx):
     r6_canonical_log_order(ctx)
     r7_log_kind_arms(ctx)
     r8_per_kind_aggregates(ctx)
+    r9_every_conflicting_folder(ctx)
